@@ -31,7 +31,7 @@ ASSUMPTIONS = [
     "an earlier include field means is not stated by the property",
     "the format layer (C04) is trusted to write the files the harness prepares",
 ]
-REQUIRED = ["format-options", "cwd-decoy", "mode:merge", "mode:load", "mode:missing", "scope:root", "scope:nested", "scope:deep", "chain", "chain:named-by-included-file", "link:same", "link:nested", "schema-extended-after-a-load", "nested-scope-only-from-included-file", "path:relative",
+REQUIRED = ["format-options", "cwd-decoy", "mode:merge", "mode:load", "mode:missing", "scope:root", "scope:nested", "scope:deep", "chain", "chain:named-by-included-file", "link:same", "link:nested", "schema-extended-after-a-load", "nested-scope-only-from-included-file", "startdir:home-relative", "path:relative",
             "path:absolute", "conflict:map-vs-scalar"] + ["fmt:" + f for f in trees.FORMATS]
 LEVEL_TEXT = (
     "Generated tree pairs/chains and real include files with a 10-line reference merge and a metamorphic "
@@ -76,6 +76,7 @@ def strategy(tier):
         "prestate": _tree(1),
         "fopts": st.sampled_from([None, None, "app"]),  # yaml root_key / xml root_tag passed to loads() and used for every file
         "late": st.sampled_from([None, None, "chain", "item"]),
+        "startdir_style": st.sampled_from(["abs", "abs", "home"]),
         "drop_scope": st.booleans(),
         "links": st.integers(0, 5).flatmap(lambda k: st.lists(st.fixed_dictionaries({"from": st.integers(0, 3), "to": st.integers(0, 3), "where": st.sampled_from(["same", "nested", "nested"]),
                                                                                       "slot": st.integers(0, 1)}), min_size=min(k, 3), max_size=min(k, 3))),
@@ -226,6 +227,12 @@ def run_case(case, R):
         os.makedirs(os.path.join(d, "inc", "more", "subdir"), exist_ok=True)
         os.makedirs(startdir, exist_ok=True)
         use_startdir = startdir if (mode != "load" or case.get("startdir")) else None
+        if mode == "load" and case.get("startdir") and case.get("startdir_style") == "home":
+            # the start directory is declared relative to the home directory ("~/..."): same files, another spelling
+            startdir = os.path.join(sandbox.home(), "c18-" + os.path.basename(d), case["startdir"])
+            os.makedirs(startdir, exist_ok=True)
+            use_startdir = "~/" + os.path.relpath(startdir, sandbox.home())
+            R.label("startdir:home-relative")
         late = case.get("late") if mode == "load" else None
         if late:
             R.label("schema-extended-after-a-load")
@@ -370,6 +377,10 @@ def run_case(case, R):
             real_out = ("ok", _snap(cc, real))
         except Exception as exc:
             real_out = ("raised", exc)
+        if real_out[0] == "raised" and isinstance(real_out[1], cc.ValidationError) and isinstance(getattr(real_out[1], "field", None), cc.IncludeField):
+            # every include named by the base document or by an included file is a file this case has written below the
+            # start directory (or by absolute path): none of them may be rejected
+            R.fail("resolve", "existing-include-rejected", "an include that names an existing file (start directory %r) was rejected: %s" % (use_startdir, real_out[1]))
         model = schema()
         prestate(model)
         try:
